@@ -59,10 +59,15 @@ def sim_judge(params, k, o, stop_sig, label=None):
     if alive:
         bad.append(("workers-survive" + at, "master exited, workers %r still alive" % alive))
     want_sig = signal.SIGTERM if stop_sig == "TERM" else signal.SIGQUIT
+    # the shutdown begins when the master handles the stop signal: the first kill() after that log record
     first_stop = None
-    for (now, pid, sig, snap, was_alive) in k.kills:
-        if sig == want_sig and first_stop is None and (not k.trace or True):
-            first_stop = now
+    handling = False
+    for t in k.trace:
+        if t[0] == "log" and t[2].startswith("Handling signal: ") and t[2].split(": ")[1] in ("term", "int", "quit"):
+            handling = True
+        elif handling and t[0] == "kill" and t[2] == want_sig:
+            first_stop = t[3]
+            break
     if first_stop is not None:
         if k.now - first_stop > GRACEFUL + 0.11:
             bad.append(("exit-too-late" + at, "master exited %.2f s after telling workers to stop, graceful_timeout %d" % (k.now - first_stop, GRACEFUL)))
@@ -155,6 +160,13 @@ PHASES = ("accepted-idle", "head-partial", "app-running", "response-partial", "k
 
 
 def real_cell(cell):
+    try:
+        return _real_cell(cell)
+    except OSError as e:
+        return ("infrastructure", "driver-side socket error: %r" % (e,))
+
+
+def _real_cell(cell):
     """One real server run.  Returns None or (fingerprint, text)."""
     wc, sig_name, phase, app, bind = cell
     if phase == "keepalive-idle" and wc == "sync":
@@ -209,11 +221,13 @@ def real_cell(cell):
         time.sleep(0.15)
         v = None
         graceful = sig_name == "TERM"
-        if phase == "head-partial" and app == "finishes":
-            c.sendall(b"st: h\r\n\r\n")
-            expect_body = b"ok"
-        elif phase == "head-partial" and app == "overruns":
-            c.sendall(b"st: h\r\n\r\n")
+        if phase == "head-partial" and app in ("finishes", "overruns"):
+            try:
+                c.sendall(b"st: h\r\n\r\n")
+            except OSError:
+                pass            # a quick shutdown may already have closed the connection
+            if app == "finishes":
+                expect_body = b"ok"
         if late:
             # the application finishes well inside the graceful timeout, but after the worker has begun draining
             time.sleep(1.6)
